@@ -2,6 +2,8 @@
 //! Everything here is inert unless a harness switches it on.
 
 pub mod clock;
+#[cfg(feature = "metric_log")]
+pub mod fileobs;
 pub mod recorder;
 
 /// Crate-private statistic types (leap array, sliding window, resource node, default slots).
